@@ -12,7 +12,8 @@ META = {
              'the window is not the whole range or the source is permuted / has extra datasets'),
     'required_obs': {'quick': ['cmp-dict', 'cmp-struct', 'cmp-hdf5', 'cmp-inline-window', 'window-dict', 'window-struct',
                                'window-hdf5', 'window-inline', 'permuted', 'extra-datasets', 'mapping', 'open-ended',
-                               'frames-decoded', 'fastpath-permuted', 'fastpath-aligned', 'fastpath-view', 'fastpath-packed', 'same-data-object-reused']},
+                               'frames-decoded', 'fastpath-permuted', 'fastpath-aligned', 'fastpath-view', 'fastpath-packed', 'same-data-object-reused',
+                               'repeated-channel-names', 'repeated-channel-names-across-sets']},
     'exhaustive_windows': {'quick': ['all windows 0 <= from < to <= N for N = 4, every source kind'],
                            'thorough': ['all windows 0 <= from < to <= N for N in 1..6, every source kind x input chunk {None,1,2}']},
     'assumptions': ['origins carry explicit file_set_number and creation_time so that nothing random enters the bytes'],
@@ -32,6 +33,9 @@ def cases(tier, seed):
         yield {'stratum': 'random', 'index': k, 'kind': 'random'}
     for k in range(100 if tier == 'quick' else 3000):
         yield {'stratum': 'struct-fastpath', 'index': k, 'kind': 'fastpath'}
+    # channel names repeated across the frames (and channel sets) of one logical file: every channel still gets its own data
+    for k in range(40 if tier == 'quick' else 1000):
+        yield {'stratum': 'repeated-channel-names', 'index': k, 'kind': 'repeated'}
 
 
 def presliced(sp, a, b):
@@ -149,6 +153,50 @@ def run_case(case):
                             'detail': f'write #{k_ + 1} from the same structured array differs from the inline reference '
                                       f'(first write {"equal" if outs[0] == ref.data else "differs"})', 'variant': spd['write']})
         sample = {'kind': 'struct fast path', 'rows': N, 'variant': wsave.get('struct_variant'), 'permuted': wsave.get('perm_seed') is not None}
+    elif case['kind'] == 'repeated':
+        r = gen.rng(seed, PROP, case['stratum'], case['index'])
+        base = gen.frame_spec(r, sources=('inline',), nframes=r.choice([2, 2, 3]), layouts=('C', 'strided'), dataset_names=False,
+                              mx=r.choice([512, 8192]), max_width=40)
+        frames = [o for o in base['ops'] if o['op'] == 'frame']
+        per_set = r.random() < 0.6        # the channels of each frame in a channel set of their own
+        first = [base['ops'][c['$ref']]['name'] for c in frames[0]['attrs']['channels']['$tuple']] \
+            if isinstance(frames[0]['attrs']['channels'], dict) else [base['ops'][c['$ref']]['name'] for c in frames[0]['attrs']['channels']]
+        nrep = 0
+        for fi, fo in enumerate(frames):
+            chs = fo['attrs']['channels']['$tuple'] if isinstance(fo['attrs']['channels'], dict) else fo['attrs']['channels']
+            for ci, c in enumerate(chs):
+                co = base['ops'][c['$ref']]
+                if fi > 0 and ci < len(first) and r.random() < 0.8:
+                    co['name'] = first[ci]
+                    nrep += 1
+                if per_set:
+                    co['set_name'] = f'CHANNELS-OF-FRAME-{fi}'
+        N = [o for o in base['ops'] if o['op'] == 'channel'][0]['data']['shape'][0]
+        base['write'] = {'source': 'inline', 'output_chunk_size': 2 ** 16}
+        ref = run(base)
+        if nrep:
+            bump('repeated-channel-names')
+            if per_set:
+                bump('repeated-channel-names-across-sets')
+        if ref.data is not None:
+            # the reference itself: every frame carries the data of its own channels
+            evals += 1
+            oracle.check_frames(ref)
+            bump('frames-decoded', ref.obs.get('frame-checked', 0))
+            for v in ref.by_prop('C03'):
+                vio.append({'prop': PROP, 'kind': 'channel-data-mixed-up', 'mech': 'rows:inline:' + v.mech, 'detail': v.detail,
+                            'variant': base['write']})
+            names = sorted(h.dataset_name for i, h in ref.built.handles.items() if base['ops'][i]['op'] == 'channel')
+            if len(set(names)) != len(names):
+                vio.append({'prop': PROP, 'kind': 'dataset-name-shared', 'mech': 'dataset-name-shared',
+                            'detail': f'channels of one logical file share a dataset name: {names}', 'variant': base['write']})
+        for src in ['dict', 'struct', 'hdf5']:
+            sp = copy.deepcopy(base)
+            sp['write'].update({'source': src, 'perm_seed': r.choice([None, r.randrange(1000)]), 'extra': 0,
+                                'input_chunk_size': r.choice(gen.chunk_choices(N))})
+            compare(ref, sp, src, f'repeated:{src}:{per_set}:{nrep}', True, decode=True)
+        sample = {'kind': 'repeated names', 'rows': N, 'per_set': per_set,
+                  'channels': [(o['name'], o.get('set_name')) for o in base['ops'] if o['op'] == 'channel'][:8]}
     else:
         r = gen.rng(seed, PROP, case['stratum'], case['index'])
         base = gen.frame_spec(r, sources=('inline',), nframes=r.choice([1, 1, 2]), casts=r.random() < 0.2,
